@@ -98,6 +98,8 @@ func VApplyFilter(jqFilter string, obj *unstructured.Unstructured) (*kemtypes.Ob
 type VInformer struct {
 	ei     *resourceInformer
 	Events []kemtypes.KubeEvent
+	// InitialList: Added notifications are marked as part of the informer's initial list
+	InitialList bool
 }
 
 func VNewInformer(mc *MonitorConfig) *VInformer {
@@ -113,7 +115,14 @@ func VNewInformer(mc *MonitorConfig) *VInformer {
 }
 
 func (v *VInformer) Watch(obj *unstructured.Unstructured, wt kemtypes.WatchEventType) {
-	v.ei.handleWatchEvent(obj, wt)
+	switch wt {
+	case kemtypes.WatchEventAdded:
+		v.ei.OnAdd(obj, v.InitialList)
+	case kemtypes.WatchEventModified:
+		v.ei.OnUpdate(nil, obj)
+	default:
+		v.ei.OnDelete(obj)
+	}
 }
 
 // Snapshot is what monitor.Snapshot returns for a monitor with this one informer.
